@@ -485,7 +485,7 @@ func (fx *FnCtx) modTargets(env *Env, items []ModItem) []modTarget {
 		case *SSel:
 			base := fx.evalSpec(env, e.X)
 			// resolve path to the last pointer
-			obj, index, _ := types.LookupFieldOrMethod(base.Ty, true, fx.pkg.Types, e.Name)
+			obj, index, _ := fx.lookupField(base.Ty, e.Name)
 			if obj == nil {
 				fx.fail("modifies: no field %s", it.Src)
 			}
